@@ -40,7 +40,7 @@ def parseKey? (cs : List Char) : Option Nat :=
 
 def zeroSig : Sig := ⟨true, 0, 0, 0, 0, 0, 0, 0⟩
 
-/-- signature token of an entry `(id, blk, num)` in a commit for `round` under service set `set` -/
+/-- signature token of an entry `(id, blk, num)` in a commit message for round `round`, set id `set` -/
 def parseSig? (id blk num round set : Nat) (cs : List Char) : Option Sig :=
   let h := Sig.honest id blk num round set
   match cs with
@@ -56,18 +56,6 @@ def parseSig? (id blk num round set : Nat) (cs : List Char) : Option Sig :=
   | 'o' :: rest => do let (b, m) ← parseVote? rest; some { h with blk := b, num := m }
   | _ => none
 
-structure Hdr where
-  n : Option Nat := none
-  set : Option Nat := none
-  tree : Option Tree := none
-  fin : Option Nat := none
-  has : Option Nat := none
-  f : Option Nat := none
-  R : Option Nat := none
-  S : Option Nat := none
-  T : Option (Nat × Nat) := none
-  lm : Option Nat := none
-
 def parseTree? (cs : List Char) : Option Tree :=
   if cs = ['-'] then some ⟨[]⟩
   else do
@@ -75,49 +63,88 @@ def parseTree? (cs : List Char) : Option Tree :=
     let t : Tree := ⟨ps⟩
     if t.wf then some t else none
 
-/-- a header field may be given once -/
-def setOnce {α : Type} (cur : Option α) (v : Option α) : Option (Option α) :=
-  if cur.isSome then none else v.map some
+/-- `-` or a comma separated list of distinct keys (at most 16) -/
+def parseKeys? (cs : List Char) : Option (List Nat) :=
+  if cs = ['-'] then some []
+  else do
+    let ks ← (splitOnChar ',' cs).mapM parseKey?
+    if ks.eraseDups.length = ks.length ∧ ks.length ≤ 16 then some ks else none
 
-/-- store one `key=value` token; `none` when malformed or repeated -/
-def hdrTok (h : Hdr) (tok : String) : Option Hdr :=
-  match splitOnChar '=' tok.toList with
-  | k :: v :: more =>
-    let v := v ++ (more.map (fun m => '=' :: m)).flatten
-    let num := canonNat? v
-    match String.ofList k with
-    | "n" => (setOnce h.n (num.filter (· ≤ 16))).map fun x => { h with n := x }
-    | "set" => (setOnce h.set num).map fun x => { h with set := x }
-    | "tree" => (setOnce h.tree (parseTree? v)).map fun x => { h with tree := x }
-    | "fin" => (setOnce h.fin num).map fun x => { h with fin := x }
-    | "has" => (setOnce h.has (num.filter (· ≤ 1))).map fun x => { h with has := x }
-    | "f" => (setOnce h.f (num.filter (· ≤ 5))).map fun x => { h with f := x }
-    | "R" => (setOnce h.R num).map fun x => { h with R := x }
-    | "S" => (setOnce h.S num).map fun x => { h with S := x }
-    | "T" => (setOnce h.T (parseVote? v)).map fun x => { h with T := x }
-    | "lm" => (setOnce h.lm (num.filter (· ≤ 2))).map fun x => { h with lm := x }
+/-- `key=value` tokens: exactly the keys of `want`, each once -/
+def parseKV? (toks : List String) (want : List String) : Option (List (String × List Char)) := do
+  let kvs ← toks.mapM fun tok =>
+    match splitOnChar '=' tok.toList with
+    | k :: v :: more => some (String.ofList k, v ++ (more.map (fun m => '=' :: m)).flatten)
     | _ => none
-  | _ => none
+  let ks := kvs.map (·.1)
+  if ks.all (want.contains ·) ∧ ks.eraseDups.length = ks.length ∧ ks.length = want.length then some kvs else none
 
-def parseEntry? (round set : Nat) (s : String) : Option Entry :=
+def parseEntry? (round mset : Nat) (s : String) : Option Entry :=
   match words s with
   | [a, b, c] => do
     let id ← parseKey? a.toList
     let (blk, num) ← parseVote? b.toList
-    let sig ← parseSig? id blk num round set c.toList
+    let sig ← parseSig? id blk num round mset c.toList
     some ⟨id, blk, num, sig⟩
   | _ => none
 
-def parseCase? (line : String) : Option (Env × Commit) :=
+def parseEntries? (round mset : Nat) (body : String) (sep : String) : Option (List Entry) :=
+  if (words body).isEmpty then some [] else (body.splitOn sep).mapM (parseEntry? round mset)
+
+/-- f R S T lm and the entry text → fault and commit -/
+def parseCommit? (kv : List (String × List Char)) (body sep : String) : Option (Nat × Commit) := do
+  let f ← (← kv.lookup "f") |> canonNat?
+  let R ← (← kv.lookup "R") |> canonNat?
+  let S ← (← kv.lookup "S") |> canonNat?
+  let (tb, tn) ← (← kv.lookup "T") |> parseVote?
+  let lm ← (← kv.lookup "lm") |> canonNat?
+  let _ ← if f ≤ 5 ∧ lm ≤ 2 then some () else none
+  let entries ← parseEntries? R S body sep
+  some (f, ⟨R, S, tb, tn, entries, lm⟩)
+
+def joinRest (c : Char) (b : List Char) (more : List (List Char)) : String :=
+  String.ofList (b ++ (more.map (fun m => c :: m)).flatten)
+
+def parseOp? (o : String) : Option Op :=
+  match words o with
+  | ["setchange", a, b] => do
+    let ns ← canonNat? a.toList
+    let vs ← parseKeys? b.toList
+    some (.setchange ns vs)
+  | "commit" :: _ =>
+    match splitOnChar '/' o.toList with
+    | l :: r :: more => do
+      let kv ← parseKV? ((words (String.ofList l)).drop 1) ["f", "R", "S", "T", "lm"]
+      let (f, c) ← parseCommit? kv (joinRest '/' r more) ","
+      some (.commit f c)
+    | _ => none
+  | _ => none
+
+/-- tree, initial Service state, ops, and whether the line is a single-commit line -/
+def parseCase? (line : String) : Option (Tree × Svc × List Op × Bool) :=
   match splitOnChar '|' line.toList with
-  | hd :: b :: more => do
-    let body := String.ofList (b ++ (more.map (fun m => '|' :: m)).flatten)
-    let h ← (words (String.ofList hd)).foldlM hdrTok ({} : Hdr)
-    let n ← h.n; let set ← h.set; let tree ← h.tree; let fin ← h.fin; let has ← h.has
-    let f ← h.f; let R ← h.R; let S ← h.S; let (tb, tn) ← h.T; let lm ← h.lm
-    let _ ← if fin ≥ tree.size then none else some ()
-    let entries ← if (words body).isEmpty then some [] else (body.splitOn ";").mapM (parseEntry? R set)
-    some (⟨n, set, tree, fin, has == 1, f⟩, ⟨R, S, tb, tn, entries, lm⟩)
+  | hd :: b :: more =>
+    let body := joinRest '|' b more
+    match words (String.ofList hd) with
+    | "hist" :: toks => do
+      let kv ← parseKV? toks ["auths", "set", "tree", "fin"]
+      let auths ← (← kv.lookup "auths") |> parseKeys?
+      let set ← (← kv.lookup "set") |> canonNat?
+      let tree ← (← kv.lookup "tree") |> parseTree?
+      let fin ← (← kv.lookup "fin") |> canonNat?
+      let _ ← if fin ≥ tree.size then none else some ()
+      let ops ← if (words body).isEmpty then some [] else (body.splitOn ";").mapM parseOp?
+      some (tree, ⟨auths, set, fin, []⟩, ops, false)
+    | toks => do
+      let kv ← parseKV? toks ["n", "set", "tree", "fin", "has", "f", "R", "S", "T", "lm"]
+      let n ← (← kv.lookup "n") |> canonNat?
+      let set ← (← kv.lookup "set") |> canonNat?
+      let tree ← (← kv.lookup "tree") |> parseTree?
+      let fin ← (← kv.lookup "fin") |> canonNat?
+      let has ← (← kv.lookup "has") |> canonNat?
+      let _ ← if n ≤ 16 ∧ has ≤ 1 ∧ fin < tree.size then some () else none
+      let (f, c) ← parseCommit? kv body ";"
+      some (tree, ⟨List.range n, set, fin, if has = 1 then [(c.round, set)] else []⟩, [.commit f c], true)
   | _ => none
 
 def showVErr : VErr → String
@@ -144,6 +171,15 @@ def showOut (o : Out) : String :=
   let pc := match o.pc with | some (r, s, l) => s!"{r}:{s}:{l}" | none => "-"
   s!"{showRes o.res} fin={fin} pc={pc} trk={if o.trk then 1 else 0}"
 
+def showOpOut : OpOut → String
+  | .commit o => showOut o
+  | .set st vs =>
+    let name (k : Nat) : String := if k ≥ 100 then s!"x{k - 100}" else s!"v{k}"
+    s!"set:{st}:{if vs.isEmpty then "-" else ",".intercalate (vs.map name)}"
+
+def showTrace (os : List OpOut) : String :=
+  if os.isEmpty then "empty" else ";".intercalate (os.map showOpOut)
+
 def step (line : String) : String :=
   match words line with
   | ["thr", d] => match canonNat? d.toList with
@@ -152,13 +188,11 @@ def step (line : String) : String :=
   | _ =>
     match parseCase? line with
     | none => "bad-op"
-    | some (env, c) =>
-      let o := handleCommit env c
-      let base := showOut o
-      -- the property: SetFinalisedHash only for a commit backed by MORE than 2/3 of the authorities
-      if o.fin.isSome && !supermajority (specCount env c) env.n then
-        let spec : Out := ⟨.verr (.min (thr env.n + 1) (specCount env c)), none, none, false⟩
-        s!"{base}\tspec={showOut spec}\tkf=c18-threshold-not-strict"
-      else base
+    | some (t, s, ops, _) =>
+      let model := showTrace (run t ops s)
+      -- the property: SetFinalisedHash only for a commit backed by MORE than 2/3 of the authorities of
+      -- the set the Service is in; the spec trace is the same history with that decision
+      let spec := showTrace (runSpec t ops s)
+      if spec ≠ model then s!"{model}\tspec={spec}\tkf=c18-threshold-not-strict" else model
 
 def main : IO Unit := runDriver step
